@@ -9,6 +9,7 @@ from ..ref import validity
 from . import common
 
 PROPERTY_ID = "C02"
+jkey = tk.jkey
 
 
 def describe():
@@ -38,6 +39,7 @@ def units(tier, seed):
         {"sid": "struct", "family": "struct", "size": 6 if q else 7, "donor": ("struct", 6 if q else 7)},
         {"sid": "topmarks", "family": "topmarks", "size": 5 if q else 6, "donor": ("topmarks", 3 if q else 5)},
         {"sid": "basic", "family": "links", "size": 5 if q else 6, "donor": ("links", 4)},
+        {"sid": "inlstrict", "family": "inlstrict", "size": 4 if q else 5, "donor": ("inlstrict", 3 if q else 4)},
     ]
     extra = [
         {"sid": "list", "family": "lists_q", "size": 10 if q else 12, "donor": ("lists_q", 8 if q else 10)},
@@ -67,6 +69,11 @@ def run_unit(u):
         T = tk.doc_tokens(model, d)
         n = len(T)
         res.states += 1
+        # a second document that SHARES this one's content fragment but has other top-node attributes
+        twin = None
+        top_attrs = list(model.types[model.top].attrs)
+        if top_attrs:
+            twin = node.type.create({top_attrs[0]: 7}, node.content)
         for a in range(n + 1):
             for b in range(a, n + 1):
                 engine.kick()
@@ -75,6 +82,8 @@ def run_unit(u):
                     for sl, lsl, S in live_pool:
                         check_replace(c, d, node, T, a, b, sl, lsl, S, res)
                         ncases += 1
+                        if twin is not None and len(S) <= 3:
+                            check_twin(c, d, node, twin, a, b, sl, lsl, res, top_attrs[0])
                 except engine.Watchdog:
                     res.violate("c02.hang", {"kind": "range", "schema": c.id, "doc": d, "from": a, "to": b},
                                 "watchdog", size=n)
@@ -217,6 +226,28 @@ def check_replace(c, d, node, T, a, b, sl, lsl, S, res):
             res.clause("c02.replace.rejects-" + exp[0])
 
 
+def check_twin(c, d, node, twin, a, b, sl, lsl, res, attr):
+    """Positions resolved on one document must not leak into a replace on another document that shares its content."""
+    res.transitions += 1
+    try:
+        node.resolve(a), node.resolve(b)
+        r1 = node.replace(a, b, lsl)
+    except ValueError:
+        r1 = None
+    try:
+        r2 = twin.replace(a, b, lsl)
+    except ValueError:
+        r2 = None
+    if (r1 is None) != (r2 is None):
+        res.violate("c02.twin.outcome-differs", {"kind": "twin", "schema": c.id, "doc": d, "from": a, "to": b, "slice": sl},
+                    [r1 is None, r2 is None], size=len(jkey(d)))
+    elif r2 is not None:
+        j2 = r2.to_json()
+        if (j2.get("attrs") or {}).get(attr) != 7 or jkey(j2.get("content")) != jkey(r1.to_json().get("content")):
+            res.violate("c02.twin.markup-leaked", {"kind": "twin", "schema": c.id, "doc": d, "from": a, "to": b, "slice": sl},
+                        jkey(j2)[:300], "attrs of the second document, same content", size=len(jkey(d)))
+
+
 def replay(case):
     res = engine.UnitResult(PROPERTY_ID)
     c = adapters.ctx(case["schema"], case.get("spec"))
@@ -228,6 +259,10 @@ def replay(case):
     try:
         if case["kind"] in ("slice", "range"):
             check_slice(c, d, node, T, case["from"], case["to"], res)
+        if case["kind"] == "twin":
+            attr = list(c.model.types[c.model.top].attrs)[0]
+            twin = node.type.create({attr: 7}, node.content)
+            check_twin(c, d, node, twin, case["from"], case["to"], case["slice"], c.slice(case["slice"]), res, attr)
         if case["kind"] == "replace":
             sl = case["slice"]
             check_replace(c, d, node, T, case["from"], case["to"], sl, c.slice(sl), rsl.slice_tokens(c.model, sl), res)
